@@ -581,6 +581,7 @@ def run_seq(spec, base, want_state=False):
         lastvalid = {}
         clock = [T0]
         removed_in_window = set()
+        gone = {}           # file -> (content, mtime) it had when it was removed
         state = {"dirty": False, "dead": False}
 
         def write(f, raw):
@@ -637,10 +638,20 @@ def run_seq(spec, base, want_state=False):
                 elif op == "r":
                     if f in disk:
                         os.remove(os.path.join(d, f))
+                        gone[f] = disk[f]
                         del disk[f]
                         state["dirty"] = True
                         if f in model.seen:
                             removed_in_window.add(f)
+                elif op == "b":      # the removed file comes back as it was: same content, SAME
+                    if f not in disk and f in gone:      # mtime (mv away and back, cp -p, rsync)
+                        raw, mt = gone.pop(f)
+                        path = os.path.join(d, f)
+                        with open(path, "wb") as fh:
+                            fh.write(raw)
+                        os.utime(path, (mt, mt))
+                        disk[f] = (raw, mt)
+                        state["dirty"] = True
                 elif op == "t":      # same content, new mtime
                     if f in disk:
                         write(f, disk[f][0])
@@ -854,6 +865,9 @@ ALPHABETS = {
     "edit": (2, [DOCS[0], _j({"p": {"SECRET_DATA": {"DESTROY": "ALLOW_OWNER"}}}), DOCS[2]], False),
     # the same plus a valid document that defines nothing at all: 2 x 5 = 10 letters
     "edit0": (2, [DOCS[0], _j({"p": {"SECRET_DATA": {"DESTROY": "ALLOW_OWNER"}}}), DOCS[2], "{}"], False),
+    # 2 x (p as v1, document without p, remove, put back as it was) = 8: a file that disappears
+    # for some scans and returns with the time stamp it had
+    "back": (2, [DOCS[0], DOCS[2]], False, True),
 }
 
 
@@ -868,12 +882,15 @@ def _alphabet(which):
                 if a["f"] != b["f"]:
                     letters.append([a, b])
         return fnames, letters
-    nfiles, docs, with_bad = ALPHABETS[which]
+    nfiles, docs, with_bad = ALPHABETS[which][:3]
+    with_back = len(ALPHABETS[which]) > 3 and ALPHABETS[which][3]
     letters = []
     for f in range(nfiles):
         for t in docs + ([BAD_JSON] if with_bad else []):
             letters.append({"op": "w", "f": f, "text": t})
         letters.append({"op": "r", "f": f})
+        if with_back:
+            letters.append({"op": "b", "f": f})
     return ["a.json", "b.json", "c.json"][:nfiles], letters
 
 
@@ -1033,6 +1050,7 @@ def st_sequences():
             rm, rm,
             st.builds(lambda f: {"op": "t", "f": f}, fidx),
             st.builds(lambda f: {"op": "fix", "f": f}, fidx),
+            st.builds(lambda f: {"op": "b", "f": f}, fidx),
             sc, sc, sc, sc)
         k = draw(st.integers(4, 20))
         events = draw(st.lists(ev, min_size=k, max_size=k))
@@ -1326,9 +1344,10 @@ def run(ctx):
     for fn in ("w_exhaustive", "w_random_seq", "w_enum_docs", "w_random_docs"):
         dicts.extend(core.run_sharded("vlib.props.c18", fn, by_fn[fn]))
     fdepth = {"edit": ctx.n(8, 11), "small": ctx.n(6, 8), "three": ctx.n(5, 7),
-              "edit-pairs": ctx.n(4, 5), "three-pairs": ctx.n(2, 3), "edit0": ctx.n(6, 9)}
+              "edit-pairs": ctx.n(4, 5), "three-pairs": ctx.n(2, 3), "edit0": ctx.n(6, 9),
+              "back": ctx.n(7, 10)}
     fstats = {}
-    for which in ("edit", "small", "three", "edit-pairs", "three-pairs", "edit0"):
+    for which in ("edit", "small", "three", "edit-pairs", "three-pairs", "edit0", "back"):
         fd, st = explore_frontier(which, fdepth[which], ns)
         dicts.extend(fd)
         fstats[which] = st
